@@ -1,11 +1,11 @@
 package sim
 
 import (
-	"os"
 	"crypto/sha256"
 	"encoding/hex"
 	"fmt"
 	"hash"
+	"os"
 	"runtime/debug"
 	"sort"
 	"strings"
@@ -24,16 +24,16 @@ func (v *Violation) Error() string { return v.Oracle + ": " + v.Msg }
 type harnessError struct{ msg string }
 
 type Run struct {
-	Prop   string
-	Seed   uint64
-	Tier   string
-	T      *Tape
-	Events []string
-	h      hash.Hash
-	Stats  map[string]int64
-	SimNS  int64 // simulated time covered (nanoseconds)
+	Prop       string
+	Seed       uint64
+	Tier       string
+	T          *Tape
+	Events     []string
+	h          hash.Hash
+	Stats      map[string]int64
+	SimNS      int64 // simulated time covered (nanoseconds)
 	nontrivial bool
-	KeepLog bool
+	KeepLog    bool
 }
 
 func NewRun(prop string, seed uint64, t *Tape) *Run {
@@ -51,7 +51,7 @@ func (r *Run) Logf(format string, a ...interface{}) {
 
 func (r *Run) Digest() string { return hex.EncodeToString(r.h.Sum(nil)) }
 
-func (r *Run) Count(key string) { r.Stats[key]++ }
+func (r *Run) Count(key string)        { r.Stats[key]++ }
 func (r *Run) Add(key string, n int64) { r.Stats[key] += n }
 
 // Fault counts an injected fault that actually fired and marks the run non-trivial.
@@ -63,7 +63,7 @@ func (r *Run) Fault(kind string) {
 // Probe counts a "rare condition reached" marker.
 func (r *Run) Probe(name string) { r.Stats["probe:"+name]++ }
 
-func (r *Run) Nontrivial() { r.nontrivial = true }
+func (r *Run) Nontrivial()        { r.nontrivial = true }
 func (r *Run) IsNontrivial() bool { return r.nontrivial }
 
 // Tier is "quick" or "thorough" (set by the worker).
@@ -145,7 +145,11 @@ func panicSite(stack string) (string, bool) {
 			first = l + " @ " + loc
 		}
 		if strings.HasPrefix(l, "berty.tech/go-ipfs-log") {
-			return l + " @ " + loc, true
+			fn := l
+			if k := strings.LastIndex(fn, "("); k > 0 {
+				fn = fn[:k] // drop the argument words: they are addresses and differ between processes
+			}
+			return fn + " @ " + loc, true
 		}
 		if strings.HasPrefix(l, "verif/sim") || strings.HasPrefix(l, "main.") {
 			return "harness panic: " + first, false
